@@ -450,7 +450,8 @@ def check_filter(rep):
         for mk in excs:
             for form in ('ctx', 'method_ctx', 'call_in_handler', 'method_call_in_handler',
                          'call_outside', 'call_other_active', 'method_call_other_active',
-                         'method_ctx_on_copy', 'method_call_in_handler_on_copy'):
+                         'method_ctx_on_copy', 'method_call_in_handler_on_copy',
+                         'method_ctx_on_equal_twin', 'method_call_in_handler_on_equal_twin'):
                 ex = mk()
                 want_suppressed = bool(p(ex))
                 filt = excutils.exception_filter(p)
@@ -469,6 +470,23 @@ def check_filter(rep):
                     holder.p = p
                     holder.seen = []
                     form_run = form[:-len('_on_copy')]
+                elif form.endswith('_on_equal_twin'):
+                    # two holders that compare (and hash) equal but carry different predicates:
+                    # the twin's filter has been used before
+                    class ValueHolder(Holder):
+                        def __eq__(self, other):
+                            return isinstance(other, Holder)
+
+                        def __hash__(self):
+                            return 7
+                    first = ValueHolder(lambda e, _p=p: not _p(e))
+                    try:
+                        with first.filt:
+                            pass
+                    except BaseException:
+                        pass
+                    holder = ValueHolder(p)
+                    form_run = form[:-len('_on_equal_twin')]
                 else:
                     form_run = form
                 got = None
